@@ -5,9 +5,13 @@ def main(path):
     lines = [l for l in open(path).read().splitlines() if l.strip()]
     if not lines: print("empty replay"); return 2
     first = json.loads(lines[0])
-    module = "DeCasteljauTrace" if first.get("e") in ("dc", "dcg") else first.get("_module", "ManifTrace")
+    e = first.get("e")
+    module = ("DeCasteljauTrace" if e in ("dc", "dcg") else "ManifHistTrace" if e in ("init", "step") else
+              "NormTrace" if e in ("w", "wsum", "wstart", "wexc") else "StaticInitTrace" if e in ("op", "race") else
+              "ApiTrace" if e == "api" else "JetTrace" if e in ("jetcmp", "functor", "fltcmp") else "AlgoTrace")
+    sequential = module in ("ManifHistTrace",)
     wd = vlib.workdir("replay")
-    results, st = vlib.validate(lines, wd, module=module, nshards=min(8, len(lines)))
+    results, st = (vlib.validate_shard(lines, wd, module, 0) if sequential else vlib.validate(lines, wd, module=module, nshards=min(8, len(lines))))
     bad = 0
     for r in results:
         h = json.loads(r["ev"]); worst = max([x[1] for x in r["items"]] or [0])
